@@ -9,7 +9,10 @@ Init == n = 0
 Next == n < Len(Recs) /\ n' = n + 1
 Spec == Init /\ [][Next]_n
 
-Judge == n >= 1 => LET bad == {c \in C07Names : ~C07Clause(c, Recs[n])} IN
+\* when the transport itself withheld clientbound bytes (write stall) the client sees packets late by the transport's doing:
+\* the two clauses that bound WHEN something reaches the client are not judged on such runs
+Judged(r) == IF r.stalled THEN C07Names \ {"C07_KeepAliveEveryP", "C07_TransferWhenRoutingCompletes"} ELSE C07Names
+Judge == n >= 1 => LET bad == {c \in Judged(Recs[n]) : ~C07Clause(c, Recs[n])} IN
                    bad = {} \/ PrintT(<<"FAIL", ToJson([line |-> n, clauses |-> bad])>>)
 AllConsumed == TLCGet("stats").diameter = Len(Recs) + 1 \/ PrintT(<<"NOTCONSUMED", ToJson([d |-> TLCGet("stats").diameter])>>)
 =============================================================================
